@@ -95,10 +95,59 @@ func VH_C06_zipkin_ndjson() {
 	dec.SetOnEntry(pd.onSpan)
 	err := dec.Decode()
 	vrt.Assert(err == nil, "well-formed-body-accepted")
-	if vrt.KnownFinding("C06-zipkin-ndjson-payload-and-state", true) {
-		return
-	}
 	vzCheck(pd, spans, n)
+	vrt.Reach("end")
+}
+
+// VH_C06_zipkin_ndjson_large: three newline-delimited spans of ~2.1 kB each (a body larger than the line
+// scanner's 4 kB buffer, so the buffer is shifted and refilled between lines): every row keeps its own
+// line verbatim as payload, and its own ids, times and tag value.
+func VH_C06_zipkin_ndjson_large() {
+	vrt.Unwind(8000)
+	vrt.ConcreteUnwind(2000000)
+	vrt.Steps(40000000)
+	pad := make([]byte, 2000)
+	for i := range pad {
+		pad[i] = 'p'
+	}
+	n := 3
+	var lines []string
+	var tags []byte
+	body := ""
+	for k := 0; k < n; k++ {
+		tv := vrt.Byte("tag-value")
+		vrt.Assume(tv >= 'a')
+		vrt.Assume(tv <= 'z')
+		tags = append(tags, tv)
+		js := `{"traceId":"0000000000000000000000000000aa0` + string(rune('1'+k)) + `","id":"000000000000000` + string(rune('1'+k)) +
+			`","name":"op","timestamp":170000000000000` + string(rune('1'+k)) + `,"duration":` + string(rune('1'+k)) + `00` +
+			`,"tags":{"pad":"` + string(pad) + `","t":"` + string([]byte{tv}) + `"}}`
+		lines = append(lines, js)
+		body += js + "\n"
+	}
+	pd := &parserDoer{ctx: &ParserCtx{bodyReader: bytes.NewReader([]byte(body))}, payloadType: 1}
+	pd.resetSpans()
+	dec := &zipkinNDDecoderV2{&zipkinDecoderV2{ctx: pd.ctx}}
+	dec.SetOnEntry(pd.onSpan)
+	err := dec.Decode()
+	vrt.Assert(err == nil, "well-formed-body-accepted")
+	vrt.Assert(len(pd.spans.MSpanId) == n, "one-trace-row-per-span")
+	for k := 0; k < n; k++ {
+		vrt.Assert(pd.spans.MSpanId[k][7] == byte(1+k), "row-span-id")
+		vrt.Assert(pd.spans.MTimestampNs[k] == (int64(1700000000000000)+int64(k+1))*1000, "row-start-time")
+		vrt.Assert(pd.spans.MDurationNs[k] == int64(k+1)*100*1000, "row-duration")
+		vrt.Assert(string(pd.spans.MPayload[k]) == lines[k], "row-payload-is-the-spans-own-line-verbatim")
+	}
+	cnt := 0
+	for i := range pd.attrs.MKey {
+		if pd.attrs.MKey[i] == "t" {
+			k := int(pd.attrs.MSpanId[i][7]) - 1
+			vrt.Assert(k >= 0 && k < n, "tag-row-belongs-to-a-span")
+			vrt.Assert(pd.attrs.MVal[i] == string([]byte{tags[k]}), "tag-row-value")
+			cnt++
+		}
+	}
+	vrt.Assert(cnt == n, "one-tag-row-per-span-tag")
 	vrt.Reach("end")
 }
 
